@@ -135,11 +135,10 @@ def gen_case(r, big=False, nchunkings=3):
     fdata = [float(r.randint(-span, span)) for _ in range(n)]
     data = [float(r.randint(-span, span)) for _ in range(n)]
     pm = r.choice([0.0, 0.15, 0.4])
-    nan_out_of_scope = fill == fill and r.random() < 0.06
     for i in range(n):
         if r.random() < pm:
             data[i] = fill
-        elif (fill != fill or nan_out_of_scope) and r.random() < pm / 2:
+        elif fill != fill and r.random() < pm / 2:      # NaN data only as the (default) NaN fill marker
             data[i] = NAN
     u = r.random()
     if u < 0.6:                      # categorical data: few distinct values, so that all of them can be categories
@@ -159,6 +158,38 @@ def gen_case(r, big=False, nchunkings=3):
     for _ in range(nchunkings):
         chunkings.append({k: [rand_chunks(r, s) for s in shape] for k in ("coord", "data", "fdata")})
     case["chunkings"] = chunkings
+    return case
+
+
+def gen_lattice_case(r, w, h, sub, flipx, flipy, nchunkings):
+    """Exhaustive small scope: every point of the 1/sub-pixel lattice from one pixel outside to one pixel
+    outside on the other side, both axes: all border / corner / outer-edge combinations of a w x h grid."""
+    dx, dy = 2.0 ** r.randint(-1, 2), 2.0 ** r.randint(-1, 2)
+    x0, y0 = float(r.randint(-6, 6)), float(r.randint(-6, 6))
+    x1, y1 = x0 + w * dx, y0 + h * dy
+    xmin, xmax = (x1, x0) if flipx else (x0, x1)
+    ymin, ymax = (y1, y0) if flipy else (y0, y1)
+    px, py = (xmax - xmin) / w, (ymax - ymin) / h
+    xs, ys, classes = [], [], []
+    for i in range(-sub, (w + 1) * sub + 1):
+        for j in range(-sub, (h + 1) * sub + 1):
+            xs.append(xmin + (i / sub) * px)
+            ys.append(ymax - (j / sub) * py)
+            out = i < 0 or i > w * sub or j < 0 or j > h * sub
+            classes.append("outside" if out else ("edge" if i % sub == 0 or j % sub == 0 else "inside"))
+    order = list(range(len(xs)))
+    r.shuffle(order)
+    xs, ys, classes = [xs[k] for k in order], [ys[k] for k in order], [classes[k] for k in order]
+    n = len(xs)
+    case = {"mode": "stub", "aclass": "lattice" + ("_flipx" if flipx else "") + ("_flipy" if flipy else ""),
+            "area": {"proj": STUB_PROJ, "extent": [hexf(v) for v in (xmin, ymin, xmax, ymax)], "w": w, "h": h},
+            "xs": [hexf(v) for v in xs], "ys": [hexf(v) for v in ys], "strict": [True] * n, "classes": classes, "shape": [n],
+            "fill": hexf(NAN), "skipna": r.random() < 0.5, "ebv": hexf(0.0), "ffill": hexf(NAN)}
+    data = [float(r.randint(-9, 9)) if r.random() < 0.85 else NAN for _ in range(n)]
+    fdata = [float(r.randint(-3, 3)) for _ in range(n)]
+    case["cats"] = sorted(set(int(v) for v in fdata))
+    case["data"], case["fdata"] = [hexf(v) for v in data], [hexf(v) for v in fdata]
+    case["chunkings"] = [{k: [rand_chunks(r, n)] for k in ("coord", "data", "fdata")} for _ in range(nchunkings)]
     return case
 
 
@@ -220,7 +251,7 @@ def judge(case, outs):
     # ---- membership
     cell = []
     for i in range(n):
-        eps = 0 if case["strict"][i] else Fraction(1, 2 ** 40)
+        eps = 0 if case["strict"][i] else Fraction(1, 2 ** 36)
         cols = axis_cells(px[i], xmin, dx, w, eps)
         rows = axis_cells(py[i], ymax, -dy, h, eps)
         ok_cells = set()
@@ -413,7 +444,7 @@ def gen_kernels(r, nk):
 
 def run_impl(ctx, cases, kernels=None, shards=8):
     """Run the driver over the cases in parallel subprocesses; returns (outs per case, kernel obs)."""
-    shards = max(1, min(shards, len(cases)))
+    shards = max(1, min(shards, max(1, len(cases))))
     parts = [cases[i::shards] for i in range(shards)]
     payloads = [{"cases": [{k: c[k] for k in ("area", "mode", "xs", "ys", "shape", "data", "fdata", "fill", "skipna",
                                                 "ebv", "ffill", "cats", "chunkings")} for c in p]} for p in parts]
@@ -429,7 +460,8 @@ def run_impl(ctx, cases, kernels=None, shards=8):
 
 
 def run(ctx):
-    ctx.rule = ("PRNG cases: 80% with PROJ replaced by the identity table (projected coordinates given directly) on dyadic "
+    ctx.rule = ("exhaustive half-pixel (quick) / quarter-pixel (thorough) lattices over small dyadic grids in all four extent "
+                "orientations (every border, corner and outer-edge position); PRNG cases: 80% with PROJ replaced by the identity table (projected coordinates given directly) on dyadic "
                 "(exact in binary64) or general grids incl. flipped extents, 20% through real PROJ (laea, merc, stere, longlat, eqc); "
                 "points inside / exactly on cell borders and outer edges / one ulp beside them / outside / NaN, inf, 1e30, 2^63, -0.0; "
                 "integer-valued data with fill markers and NaN (sum/average only), fill_value, skipna, empty_bucket_value, category "
@@ -437,8 +469,10 @@ def run(ctx):
                 "Non-trivial = at least one cell with two or more points and at least one point outside the area; "
                 "distinct = distinct (area, coordinates, data, configuration)")
     r = ctx.rng
-    ncases = ctx.n(300, 4000)
-    cases = [gen_case(r, big=ctx.thorough, nchunkings=ctx.n(2, 3)) for _ in range(ncases)]
+    ncases = ctx.n(240, 2500)
+    cases = [gen_lattice_case(r, w, h, ctx.n(2, 4), fx, fy, ctx.n(2, 3))
+             for (w, h) in ctx.n([(2, 2)], [(2, 2), (3, 2), (1, 3)]) for fx in (False, True) for fy in (False, True)]
+    cases += [gen_case(r, big=ctx.thorough, nchunkings=ctx.n(2, 3)) for _ in range(ncases)]
     kernels = gen_kernels(r, ctx.n(200, 3000))
     t0 = time.time()
     outs, kobs = run_impl(ctx, cases, kernels, shards=ctx.n(8, 12))
@@ -521,7 +555,6 @@ def run(ctx):
                     ci = stat_ids[off + bad[0]]
                     ctx.broken.append(("correspondence:" + sname, "model and implementation differ on %d cases of shard %s, e.g. case %d: %s"
                                        % (len(bad), name, ci, stat_lines[off + bad[0]][:300])))
-                    search_near(ctx, cases[ci], outs[ci])
         else:
             import re
             bad = [int(x) for x in re.findall(r"-?\d+", re.sub(r"%[a-zA-Z]+", "", val))]
@@ -529,23 +562,35 @@ def run(ctx):
                 line = (idx_lines if kind == "idx" else klines)[off + bad[0]]
                 ctx.broken.append(("correspondence:" + ("indices" if kind == "idx" else "kernels"),
                                    "model and implementation differ on %d cases of shard %s, e.g. %s" % (len(bad), name, line[:300])))
-                if kind == "idx":
-                    search_near(ctx, cases[stat_ids[off + bad[0]]], outs[stat_ids[off + bad[0]]])
     ctx.traces = len(stat_lines)
-
-
-def search_near(ctx, case, oo):
-    """A correspondence mismatch with no oracle failure on that case: nothing more to do than record it;
-    the oracle has already judged every case, so a concrete failing input (if any) is in ctx.failures."""
-    return None
+    ctx.notes += [
+        "PROJ is an oracle: projected coordinates are taken from the implementation side (pyproj), or given directly through an "
+        "identity _get_proj_coordinates for the exact border cases; _get_indices itself (float64 arithmetic, floor, int64 cast, mask, "
+        "ravel) is modelled bit-exactly and compared on every point",
+        "np.histogram/np.bincount, np.argsort, np.digitize, np.unique(return_index) and dask's per-chunk reduction are hand-modelled "
+        "(fold over points, value sort, first position per bin, sum over the chunk list) and validated by the correspondence; only "
+        "_get_invalid_mask and _get_abs_max_from_min_max are regenerated from source by the translator (the rest of the module is dask "
+        "plumbing the loop-free translator rejects)",
+        "data are integer-valued floats (exact sums): the order in which numpy/dask add non-integer floats is outside the theorems (IEEE gap)",
+        "min/max/abs-max theorems, oracle and correspondence are on finite data as the property states; with NaN data get_min skips "
+        "NaN and get_max/get_abs_max propagate it regardless of skipna, and fill_value is ignored by all three (observation, out of scope)",
+    ]
 
 
 def replay(ctx, data):
-    case = data["case"]["case"] if "case" in data.get("case", {}) else None
+    """Re-run one recorded failing input on the current implementation; True iff it still fails."""
+    rec = data.get("case", {})
+    if rec.get("oracle") == "kernel":
+        a, b = [unhex(v) for v in rec["args"]]
+        _, kobs = run_impl(ctx, [], [(a, b)], shards=1)
+        am = unhex(kobs["absmax"][0])
+        want = b if not (-a > b) else a
+        return not ((am != am and want != want) or hexf(am) == hexf(want))
+    case = rec.get("case")
     if case is None:
         return False
     outs, _ = run_impl(ctx, [case], None, shards=1)
     fails = judge(case, outs[0])
     for k, wh in fails:
         print("  %s: %s" % (k, wh))
-    return any(k == data.get("key") for k, _ in fails) or bool(fails)
+    return bool(fails)
